@@ -246,7 +246,13 @@ def extract_iter(
             # Only inserting new items into the stack trace; since
             # next_inner is in both `items` and `to_unwrap`, remove it
             # from the latter
-            to_unwrap.popleft()
+            if to_unwrap:
+                to_unwrap.popleft()
+            else:
+                # This is the innermost frame and there is no leaf, so
+                # next_inner is None and there is nothing to remove;
+                # just insert the other items
+                items = items[:-1]
         for item in reversed(items):
             to_unwrap.appendleft((better_origin(item, None), item, depth))
 
